@@ -3,7 +3,7 @@ from __future__ import annotations
 
 import numpy as np
 
-from vf import gen, probes
+from vf import gen, plumbing, probes
 
 PID = "C07"
 ANCHORS = ["pyoma2.functions.fdd:EFDD_mpe", "pyoma2.functions.fdd:SDOF_bellandMS", "pyoma2.functions.fdd:FDD_mpe", "pyoma2.algorithms.fdd:EFDD.mpe"]
@@ -18,7 +18,17 @@ ASSUMPTIONS = ["multi-mode spectra and correlogram spectra are outside the prope
                "class-level runs replace fdd.SD_est by the analytic matrix so that only the extraction code is exercised"]
 
 
+PLUMB_CLASSES = ['EFDD', 'FSDD', 'EFDD_MS']
+PLUMB_FIELDS = ['Fn', 'Xi', 'Phi']
+REQUIRED_MONITORS = list(REQUIRED_MONITORS) + [f"plumbing:{s_}" for s_ in plumbing.SCENARIOS]
+REQUIRED_STATES = list(REQUIRED_STATES) + [f"plumbing scenario {s_}" for s_ in plumbing.SCENARIOS]
+
+
 def cases(tier, seed):
+    return _cases(tier, seed) + plumbing.cases(len(plumbing.SCENARIOS) * len(PLUMB_CLASSES) * (1 if tier == "quick" else 6), PLUMB_CLASSES)
+
+
+def _cases(tier, seed):
     n1, n2, n3 = (140, 24, 12) if tier == "quick" else (1500, 200, 120)
     return ([{"cls": "function", "k": k} for k in range(n1)] + [{"cls": "classes", "k": k} for k in range(n2)]
             + [{"cls": "reused_buffer", "k": k} for k in range(n3)])
@@ -155,5 +165,7 @@ def run_classes(ctx, rng):
 
 
 def run_case(ctx, case):
+    if case["cls"] == "plumbing":
+        return plumbing.run_case(ctx, case, gen.rng_of(case), PLUMB_FIELDS)
     rng = gen.rng_of(case)
     {"function": run_function, "classes": run_classes, "reused_buffer": run_reused_buffer}[case["cls"]](ctx, rng)
